@@ -118,7 +118,7 @@ class ScalarProbe(Probe):
     def as_fp(v, t):
         if t.bits == 80:
             return asmx.x87_from_bits(v)
-        return z3.fpBVToFP(v, t.sort)
+        return asmx.bv2fp(v, t.sort)
 
     def goals(self, M, finals):
         vals, hyps = self.arg_values(M)
@@ -156,8 +156,7 @@ class ScalarProbe(Probe):
                 else:
                     raw = s.xmm[0]
                     gb = z3.Extract(31, 0, raw) if t.bits == 32 else raw
-                    got = z3.fpBVToFP(gb, t.sort)
-                    goal = z3.Or(z3.And(z3.fpIsNaN(got), z3.fpIsNaN(refv)), gb == z3.fpToIEEEBV(refv))
+                    got = asmx.bv2fp(gb, t.sort)
                     goal = z3.If(z3.fpIsNaN(refv), z3.fpIsNaN(got), z3.And(z3.Not(z3.fpIsNaN(got)), got == refv))
             else:
                 rax = s.regs["rax"]
@@ -230,6 +229,11 @@ def model_int(model, e):
     v = model.eval(e, model_completion=True)
     if z3.is_bv_value(v):
         return v.as_long()
+    if z3.is_fp_value(v) and v.isNaN():
+        srt = v.sort()
+        if srt == asmx.X87:
+            return 0x7fffc000000000000000
+        return 0x7fc00000 if srt == z3.Float32() else 0x7ff8000000000000
     if z3.is_fp_value(v) or z3.is_fp(v):
         b = model.eval(z3.fpToIEEEBV(v), model_completion=True)
         if v.sort() == asmx.X87:
@@ -559,7 +563,7 @@ def validate_scalar(chk, probes, per_probe=6, max_probes=40, seed=0):
                 pred = model_int(m, s.st[-1])
             elif is_fp(t):
                 raw = s.xmm[0]
-                pred = model_int(m, z3.Extract(31, 0, raw) if t.bits == 32 else raw)
+                pred = model_int(m, asmx.bv2fp(z3.Extract(31, 0, raw) if t.bits == 32 else raw, t.sort))
             else:
                 rax = s.regs["rax"]
                 pred = model_int(m, z3.Extract(t.bits - 1, 0, rax) if t.bits < 64 else rax)
